@@ -654,7 +654,10 @@ pub fn cases(run_seed: u64, tier: &str, _scratch: &str) -> Vec<Value> {
         Some("generated") => source["sheets"].as_u64().unwrap_or(2) as usize,
         _ => 4,
     };
-    let n_hist = if tier == "thorough" { 16 } else { 8 };
+    // the large corpus files cost seconds per load or save: fewer and shorter histories on them
+    let big = source["kind"] == "corpus"
+        && std::fs::metadata(format!("{}/{}", corpus_dir(), source["file"].as_str().unwrap_or(""))).map(|m| m.len()).unwrap_or(0) > 300_000;
+    let n_hist = if big { 3 } else if tier == "thorough" { 16 } else { 8 };
     let mut out = Vec::new();
     // workbook-level insert/remove rewrites every formula of every sheet through the formula
     // tokenizer (C08/C09 territory; it does not terminate on some corpus formulas): those events are
@@ -679,7 +682,7 @@ pub fn cases(run_seed: u64, tier: &str, _scratch: &str) -> Vec<Value> {
             if generated && sw.chance(1, 4) { 1 } else { 0 }, // book remove col
             2 + sw.below(3) as u32, // save
         ];
-        let len = 1 + sc.usize(15);
+        let len = 1 + sc.usize(if big { 6 } else { 15 });
         let cfg = world::GenCfg { sheets: nsheets, ncells: 6, alpha: sw.usize(4), w: [8, 1, 2, 1, 1, 2, 2, 2, 1, 1, 0, 1, 0] };
         let mut evs = Vec::new();
         for k in 0..len {
